@@ -97,6 +97,9 @@ def import_with_fault(module: str, form: str, at: int, pkg_prefix: str) -> dict:
     res["fired"] = fired[0]
     res["lines_seen"] = seen[0]
     res["where"] = where[0]
+    # did the interpreter keep the package object itself?  (it discards it when the package's
+    # own __init__ was still running; what follows then is the interpreter's doing)
+    res["package_survived"] = "chartparse" in sys.modules
     return res
 
 
